@@ -8,7 +8,19 @@ Extracted, fail closed on any other shape:
     wavelength coordinate), whether negative values are clipped, and that the store is the last statement;
   * that every container's geometry is (geo.row, geo.col);
   * what each Detector bucket setter does (`self.X.array = obj.array` validating /
-    `self.X._array = obj._array` raw / no setter);
+    `self.X._array = obj._array` raw / the photon setter's dispatch on `obj._array` to `empty()` /
+    `.array` / `.array_3d` / no setter);
+  * the shape of Photon.__iadd__ and Photon.__add__: the two isinstance guards, then either the raw tail
+    (`self._array += other` / `self._array = other`) or the tail through the setters; ArrayBase.__iadd__ /
+    __add__: `self.array += other` (in place on the stored array) or the addition on a copy, `self.array = other`
+    on an empty container;
+  * the shape of ArrayBase.__eq__ (arrays compared only when the left side is initialised / None-ness compared
+    on both sides first) and whether Photon.__eq__ compares `(_num_rows, _num_cols)`;
+  * the guards of the getters (`ArrayBase.array`, `Photon.array`, `Photon.array_3d`) and of both `__array__`
+    methods in front of `return self._array` (which test, which exception);
+  * what `empty()` stores for every class (None / float zeros of the container shape), what `update(None)` does
+    (`self.empty()` / `self._array = None`), which buckets `Detector.empty(reset)` empties always / under `if reset:`,
+    and whether `MKID.empty` zeroes an initialised phase array under `reset`;
   * numpy's in-place output-casting rule `dst += src` over the dtype enum, read from the installed numpy
     (can_cast(result_type(dst, src), dst, 'same_kind'), cross-checked by executing the addition).
 """
@@ -41,7 +53,7 @@ CLASSES = {  # class -> (file, Coq constructor)
     "Phase": ("pyxel/data_structure/phase.py", "Phase"),
 }
 # methods a subclass of ArrayBase must not redefine (the model takes them from ArrayBase)
-BASE_ONLY = {"_validate", "array", "__iadd__", "__add__", "__eq__", "shape", "dtype"}
+BASE_ONLY = {"_validate", "array", "__iadd__", "__add__", "__eq__", "shape", "dtype", "__array__"}
 
 
 def find_class(tree: ast.AST, name: str) -> ast.ClassDef:
@@ -162,6 +174,270 @@ def is_warn(st):
     return isinstance(st, ast.Expr) and isinstance(st.value, ast.Call) and ast.unparse(st.value.func) == "warnings.warn"
 
 
+class _StripRaise(ast.NodeTransformer):
+    """raise X("message") -> raise X()   (messages are not property-relevant)"""
+
+    def visit_Raise(self, node):
+        if isinstance(node.exc, ast.Call):
+            node = ast.Raise(exc=ast.Call(func=node.exc.func, args=[], keywords=[]), cause=None)
+        return node
+
+
+def shape_of(fn: ast.FunctionDef, rename: dict | None = None) -> list[str]:
+    """Canonical text of every statement of a small method: docstring, imports and exception messages removed,
+    quotes normalised, parameter names renamed."""
+    out = []
+    for st in body_no_doc(fn):
+        if isinstance(st, (ast.Import, ast.ImportFrom)):
+            continue
+        st = _StripRaise().visit(ast.parse(ast.unparse(st)).body[0])
+        if rename:
+            for n in ast.walk(st):
+                if isinstance(n, ast.Name) and n.id in rename:
+                    n.id = rename[n.id]
+        out.append(norm(st))
+    return out
+
+
+def _canon(src: str) -> str:
+    return norm(_StripRaise().visit(ast.parse(src).body[0]))
+
+
+PH_G1 = _canon("if isinstance(other, np.ndarray) and isinstance(self._array, xr.DataArray):\n    raise TypeError()")
+PH_G2 = _canon("if isinstance(other, xr.DataArray) and isinstance(self._array, np.ndarray):\n    raise TypeError()")
+PH_RAW = {_canon("if self._array is not None:\n    self._array += other\nelse:\n    self._array = other"),
+          _canon("if self._array is None:\n    self._array = other\nelse:\n    self._array += other")}
+PH_SET = {_canon("if self._array is None:\n    if isinstance(other, xr.DataArray):\n        self.array_3d = other\n"
+                 "    else:\n        self.array = other\nelif isinstance(self._array, xr.DataArray):\n"
+                 "    self.array_3d += other\nelse:\n    self.array += other"),
+          _canon("if self._array is None:\n    if isinstance(other, xr.DataArray):\n        self.array_3d = other\n"
+                 "    else:\n        self.array = other\nelif isinstance(self._array, np.ndarray):\n"
+                 "    self.array += other\nelse:\n    self.array_3d += other")}
+BASE_IADD = {_canon("if self._array is not None:\n    self.array += other\nelse:\n    self.array = other"),
+             _canon("if self._array is None:\n    self.array = other\nelse:\n    self.array += other")}
+COPY_EXPRS = {"self._array.copy()", "np.copy(self._array)", "self.array.copy()", "np.array(self._array)",
+              "np.array(self._array, copy=True)", "self._array.copy(order=\"K\")"}
+
+
+def is_copy_branch(stmts: list[ast.stmt]) -> bool:
+    """`v = <copy of the stored array>; v += other; self.array = v`  (any local name v)"""
+    if len(stmts) != 3:
+        return False
+    a, b, c = stmts
+    if not (isinstance(a, ast.Assign) and len(a.targets) == 1 and isinstance(a.targets[0], ast.Name)
+            and norm(a.value) in COPY_EXPRS):
+        return False
+    v = a.targets[0].id
+    if v in ("self", "other"):
+        return False
+    if not (isinstance(b, ast.AugAssign) and isinstance(b.op, ast.Add) and isinstance(b.target, ast.Name)
+            and b.target.id == v and norm(b.value) == "other"):
+        return False
+    return norm(c) == f"self.array = {v}"
+
+
+def base_iadd_kind(fn: ast.FunctionDef) -> str:
+    if [a.arg for a in fn.args.args] != ["self", "other"]:
+        fail(fn, f"ArrayBase.{fn.name} signature")
+    body = [st for st in body_no_doc(fn)]
+    if len(body) != 2 or norm(body[1]) != "return self" or not isinstance(body[0], ast.If):
+        fail(fn, f"ArrayBase.{fn.name}: expected one if/else and `return self`")
+    st = body[0]
+    t = norm(st.test)
+    if t == "self._array is not None":
+        init, empty = st.body, st.orelse
+    elif t == "self._array is None":
+        init, empty = st.orelse, st.body
+    else:
+        fail(st, f"ArrayBase.{fn.name}: the test must be on `self._array is [not] None`")
+    if [norm(x) for x in empty] != ["self.array = other"]:
+        fail(st, f"ArrayBase.{fn.name}: an empty container must take `self.array = other`")
+    if [norm(x) for x in init] == ["self.array += other"]:
+        return "BIInPlace"
+    if is_copy_branch(init):
+        return "BIOnCopy"
+    fail(st, f"ArrayBase.{fn.name} must be `self.array += other` or the addition on a copy followed by `self.array = <copy>`")
+
+
+BASE_EQ_LEFT = [[_canon("is_true = type(self) is type(other) and self.shape == other.shape"),
+                 _canon("if is_true and self._array is not None:\n    is_true = np.array_equal(self.array, other.array)"),
+                 _canon("return is_true")]]
+_EQ_HEAD = [_canon("if not (type(self) is type(other) and self.shape == other.shape):\n    return False"),
+            _canon("if type(self) is not type(other) or self.shape != other.shape:\n    return False")]
+_EQ_NONE = [_canon("if self._array is None or other._array is None:\n    return self._array is None and other._array is None"),
+            _canon("if self._array is None or other._array is None:\n    return self._array is other._array")]
+_EQ_VAL = [_canon("return np.array_equal(self._array, other._array)"), _canon("return np.array_equal(self.array, other.array)"),
+           _canon("return bool(np.array_equal(self._array, other._array))")]
+BASE_EQ_BOTH = [[h, n, v] for h in _EQ_HEAD for n in _EQ_NONE for v in _EQ_VAL]
+PH_EQ_TYPE = _canon("if type(self) is not type(other):\n    return False")
+PH_EQ_GEOM = {_canon("if (self._num_rows, self._num_cols) != (other._num_rows, other._num_cols):\n    return False"),
+              _canon("if self._num_rows != other._num_rows or self._num_cols != other._num_cols:\n    return False")}
+PH_EQ_REST = [_canon("if self._array is other._array is None:\n    return True"),
+              _canon("if isinstance(self._array, np.ndarray):\n    return np.array_equal(self._array, other._array)"),
+              _canon("if isinstance(self._array, xr.DataArray):\n    return self._array.equals(other._array)"),
+              _canon("return False")]
+DET_PH_SAME = _canon("if obj is self._photon:\n    return")
+DET_PH_DISPATCH = {_canon("if obj._array is None:\n    self.photon.empty()\nelif isinstance(obj._array, np.ndarray):\n"
+                          "    self.photon.array = obj.array\nelse:\n    self.photon.array_3d = obj.array_3d")}
+
+
+def photon_iadd_kind(fn: ast.FunctionDef) -> str:
+    if [a.arg for a in fn.args.args] != ["self", "other"]:
+        fail(fn, f"Photon.{fn.name} signature")
+    b = shape_of(fn)
+    if len(b) != 4 or sorted(b[:2]) != sorted([PH_G1, PH_G2]) or b[3] != "return self":
+        fail(fn, f"Photon.{fn.name}: expected the two isinstance guards, one if/else tail and `return self`")
+    if b[2] in PH_RAW:
+        return "IAddRaw"
+    if b[2] in PH_SET:
+        return "IAddSetters"
+    fail(fn, f"Photon.{fn.name}: tail shape not accepted")
+
+
+def base_eq_kind(fn: ast.FunctionDef) -> str:
+    if [a.arg for a in fn.args.args] != ["self", "other"]:
+        fail(fn, "ArrayBase.__eq__ signature")
+    b = shape_of(fn)
+    if b in BASE_EQ_LEFT:
+        return "EqLeftOnly"
+    if b in BASE_EQ_BOTH:
+        return "EqBothNone"
+    fail(fn, "ArrayBase.__eq__: shape not accepted")
+
+
+def photon_eq_geom(fn: ast.FunctionDef) -> bool:
+    if [a.arg for a in fn.args.args] != ["self", "other"]:
+        fail(fn, "Photon.__eq__ signature")
+    b = shape_of(fn)
+    if not b or b[0] != PH_EQ_TYPE:
+        fail(fn, "Photon.__eq__: must start with the type test")
+    rest, geom = b[1:], False
+    if rest and rest[0] in PH_EQ_GEOM:
+        rest, geom = rest[1:], True
+    if rest != PH_EQ_REST:
+        fail(fn, "Photon.__eq__: shape not accepted")
+    return geom
+
+
+
+# ---- getters, __array__, empty, update, Detector.empty ------------------------------------------------------------
+
+NONE_TESTS = {"self._array is None", "not _is_array_initialized(self._array)"}
+
+
+def getter_of(cls: ast.ClassDef, prop: str) -> ast.FunctionDef:
+    c = [n for n in cls.body if isinstance(n, ast.FunctionDef) and n.name == prop
+         and any(ast.unparse(d) == "property" for d in n.decorator_list)]
+    if len(c) != 1:
+        fail(cls, f"{cls.name}.{prop}: expected one @property getter")
+    return c[0]
+
+
+def raise_after_locals(body: list[ast.stmt], node) -> str:
+    """`[local = ...]* raise E(...)` -> E"""
+    for st in body[:-1]:
+        if not (isinstance(st, (ast.Assign, ast.AnnAssign))
+                and isinstance(st.targets[0] if isinstance(st, ast.Assign) else st.target, ast.Name)):
+            fail(st, "guard body: only local assignments may precede the raise")
+    return raise_class(body[-1:], node)
+
+
+def read_guards(fn: ast.FunctionDef, tests: dict, ret: set) -> dict:
+    """A getter: `if <test>: ... raise E` guards (any order, each at most once), then one accepted `return`."""
+    found = {}
+    body = [st for st in body_no_doc(fn) if not isinstance(st, (ast.Import, ast.ImportFrom))]
+    if not body or not isinstance(body[-1], ast.Return) or norm(body[-1]) not in ret:
+        fail(fn, f"{fn.name}: must end with one of {sorted(ret)}")
+    for st in body[:-1]:
+        if not (isinstance(st, ast.If) and not st.orelse and norm(st.test) in tests):
+            fail(st, f"{fn.name}: statement shape not accepted")
+        g = tests[norm(st.test)]
+        if g in found:
+            fail(st, f"{fn.name}: guard {g} twice")
+        found[g] = raise_after_locals(st.body, st)
+    return found
+
+
+def empty_kind(fn: ast.FunctionDef) -> str:
+    b = [norm(x) for x in body_no_doc(fn)]
+    if len(fn.args.args) != 1:
+        fail(fn, "empty() signature")
+    if b == ["self._array = None"]:
+        return "EmptyNone"
+    if b in (["self._array = np.zeros(shape=self._shape, dtype=float)"], ["self._array = np.zeros(self._shape, dtype=float)"],
+             ["self._array = np.zeros(shape=self._shape, dtype=np.float64)"], ["self._array = np.zeros(self._shape)"]):
+        return "EmptyZeros"
+    fail(fn, "empty(): shape not accepted")
+
+
+def update_kind(fn: ast.FunctionDef) -> str:
+    if [a.arg for a in fn.args.args] != ["self", "data"]:
+        fail(fn, "update() signature")
+    b = body_no_doc(fn)
+    if len(b) != 1 or not isinstance(b[0], ast.If) or norm(b[0].test) != "data is not None":
+        fail(fn, "update(): expected `if data is not None: ... else: ...`")
+    if [norm(x) for x in b[0].body] != ["self.array = np.asarray(data)"]:
+        fail(fn, "update(): the data branch must be `self.array = np.asarray(data)`")
+    e = [norm(x) for x in b[0].orelse]
+    if e == ["self.empty()"]:
+        return "UpdCallsEmpty"
+    if e == ["self._array = None"]:
+        return "UpdNone"
+    fail(fn, "update(): the None branch must be `self.empty()` or `self._array = None`")
+
+
+def own_method(cls: ast.ClassDef, name: str):
+    c = [n for n in cls.body if isinstance(n, ast.FunctionDef) and n.name == name]
+    if len(c) > 1:
+        fail(cls, f"{cls.name}.{name}: several definitions")
+    return c[0] if c else None
+
+
+def detector_empty_table(fn: ast.FunctionDef) -> dict:
+    """Detector.empty(reset): `self.<bucket>.empty()` statements, unconditional or under `if reset:` (no else)."""
+    if [a.arg for a in fn.args.args] != ["self", "reset"]:
+        fail(fn, "Detector.empty signature")
+    tab = {}
+
+    def visit(st, kind):
+        t = norm(st)
+        for b in ("photon", "pixel", "signal", "image"):
+            if t == f"self.{b}.empty()":
+                if b in tab:
+                    fail(st, f"Detector.empty: {b} emptied twice")
+                tab[b] = kind
+                return
+        if t in ("self.charge.empty()", "self.scene = Scene()", "self.scene.empty()"):
+            return                                   # not a C13 bucket
+        fail(st, "Detector.empty: unexpected statement")
+
+    for st in body_no_doc(fn):
+        if isinstance(st, ast.If):
+            if norm(st.test) != "reset" or st.orelse:
+                fail(st, "Detector.empty: only `if reset:` without else is accepted")
+            for x in st.body:
+                visit(x, "DIfReset")
+        else:
+            visit(st, "DAlways")
+    return {b: tab.get(b, "DNever") for b in ("photon", "pixel", "signal", "image")}
+
+
+def mkid_phase_zero(fn) -> bool:
+    if fn is None:
+        return False                                  # MKID does not override empty(): the phase array is kept
+    b = [norm(x) for x in body_no_doc(fn)]
+    if [a.arg for a in fn.args.args] != ["self", "reset"] or not b or b[0] != "super().empty(reset)":
+        fail(fn, "MKID.empty must start with super().empty(reset)")
+    if len(b) == 1:
+        return False
+    zero = {"if reset and self._phase and (self._phase._array is not None):\n    self.phase.array *= 0",
+            "if reset and self._phase and self._phase._array is not None:\n    self.phase.array *= 0"}
+    if len(b) == 2 and b[1] in zero:
+        return True
+    fail(fn, "MKID.empty: shape not accepted")
+
+
+
 def numpy_iadd_table():
     import warnings
 
@@ -235,6 +511,20 @@ def extract(repo: Path) -> dict:
     if "self._shape = shape" not in ib or not any(s.startswith("self._array") and s.endswith("= None") for s in ib):
         fail(init, "ArrayBase.__init__ must set `self._array = None` and `self._shape = shape`")
 
+    for nm, key in (("__iadd__", "b_iadd"), ("__add__", "b_add")):
+        info[key] = base_iadd_kind(find_func(tree, nm, "ArrayBase"))
+    info["base_eq"] = base_eq_kind(find_func(tree, "__eq__", "ArrayBase"))
+    init_fn = find_func(tree, "_is_array_initialized")
+    if [norm(x) for x in body_no_doc(init_fn)] != ["return data is not None"]:
+        fail(init_fn, "_is_array_initialized must be `return data is not None`")
+    rd = {}
+    rd["base"] = read_guards(getter_of(base, "array"), {t: "none" for t in NONE_TESTS}, {"return self._array"})
+    rd["aa_base"] = read_guards(find_func(tree, "__array__", "ArrayBase"),
+                                {"not isinstance(self._array, np.ndarray)": "notnp"},
+                                {"return np.asarray(self._array, dtype=dtype)", "return np.asarray(self._array)"})
+    empties = {"ArrayBase": empty_kind(find_func(tree, "empty", "ArrayBase"))}
+    updates = {"ArrayBase": update_kind(find_func(tree, "update", "ArrayBase"))}
+
     # ---- subclasses
     tls = {}
     for cname, (rel, _) in CLASSES.items():
@@ -254,6 +544,9 @@ def extract(repo: Path) -> dict:
         ini = find_func(t, "__init__", cname)
         if [norm(s) for s in body_no_doc(ini)] != ["super().__init__(shape=(geo.row, geo.col))"]:
             fail(ini, f"{cname}.__init__ must be super().__init__(shape=(geo.row, geo.col))")
+        fe, fu = own_method(cls, "empty"), own_method(cls, "update")
+        empties[cname] = empty_kind(fe) if fe is not None else empties["ArrayBase"]
+        updates[cname] = update_kind(fu) if fu is not None else updates["ArrayBase"]
     info["type_lists"] = tls
 
     # ---- Photon
@@ -298,6 +591,31 @@ def extract(repo: Path) -> dict:
     check_order(s3, o3, ["type", "dtype", "ndim", "dims", "shape", "coord", "clip"])
     info["q"], info["q_clip"] = f3, clip3
 
+    rd["ph2"] = read_guards(getter_of(ph, "array"), {**{t: "none" for t in NONE_TESTS},
+                                                    "isinstance(self._array, xr.DataArray)": "other"}, {"return self._array"})
+    rd["ph3"] = read_guards(getter_of(ph, "array_3d"), {**{t: "none" for t in NONE_TESTS},
+                                                       "isinstance(self._array, np.ndarray)": "other"}, {"return self._array"})
+    rd["aa_ph"] = read_guards(find_func(t, "__array__", "Photon"), {t: "none" for t in NONE_TESTS},
+                              {"return np.asarray(self.array, dtype=dtype)", "return np.asarray(self.array)"})
+    info["reads"] = rd
+    empties["Photon"] = empty_kind(find_func(t, "empty", "Photon"))
+    if own_method(ph, "update") is not None:
+        fail(ph, "Photon.update is not modelled")
+    info["empties"], info["updates"] = empties, updates
+    info["ph_iadd"] = photon_iadd_kind(find_func(t, "__iadd__", "Photon"))
+    info["ph_add"] = photon_iadd_kind(find_func(t, "__add__", "Photon"))
+    info["ph_eq_geom"] = photon_eq_geom(find_func(t, "__eq__", "Photon"))
+
+    # the alias property `array_2d` must delegate to `array` (the driver uses both entry points, the model one)
+    g2 = [n for n in ph.body if isinstance(n, ast.FunctionDef) and n.name == "array_2d"
+          and any(ast.unparse(d) == "property" for d in n.decorator_list)]
+    st2 = setter_of(ph, "array_2d")
+    if g2 or st2 is not None:
+        if len(g2) != 1 or [norm(x) for x in body_no_doc(g2[0])] != ["return self.array"]:
+            fail(ph, "Photon.array_2d getter must be `return self.array`")
+        if st2 is None or [norm(x) for x in body_no_doc(st2)] != ["self.array = value"]:
+            fail(ph, "Photon.array_2d setter must be `self.array = value`")
+
     # ---- Detector setters
     t = parse(repo, "pyxel/detectors/detector.py")
     det = find_class(t, "Detector")
@@ -313,10 +631,20 @@ def extract(repo: Path) -> dict:
             setters[bucket] = "SetterValidating"
         elif b == [f"self.{bucket}._array = {arg}._array"]:
             setters[bucket] = "SetterRaw"
+        elif bucket == "photon" and arg is not None:
+            sh = shape_of(fn, rename={arg: "obj"})
+            if sh and sh[0] == DET_PH_SAME:          # `detector.photon += x` hands the same object back
+                sh = sh[1:]
+            if len(sh) == 1 and sh[0] in DET_PH_DISPATCH:
+                setters[bucket] = "SetterDispatch"
+            else:
+                fail(fn, "Detector.photon setter shape not accepted")
         else:
             fail(fn, f"Detector.{bucket} setter shape not accepted")
+    info["d_empty"] = detector_empty_table(find_func(t, "empty", "Detector"))
     t = parse(repo, "pyxel/detectors/mkid/mkid.py")
     mk = find_class(t, "MKID")
+    info["mkid_phase_zero"] = mkid_phase_zero(own_method(mk, "empty"))
     fn = setter_of(mk, "phase")
     if fn is None:
         setters["phase"] = "SetterNone"
@@ -343,6 +671,7 @@ def render(info: dict, iadd_rows) -> str:
     def lst(names):
         return "[" + "; ".join(COQ_DT[n] for n in names) + "]" if names else "[]"
 
+    rd, de = info["reads"], info["d_empty"]
     rows = ";\n   ".join("[" + "; ".join("true" if x else "false" for x in row) + "]" for row in iadd_rows)
     st = info["setters"]
     return (HEADER +
@@ -356,6 +685,13 @@ def render(info: dict, iadd_rows) -> str:
             "Definition src_det_setter (k : ckind) : setter_kind :=\n  match k with\n"
             f"  | Photon => {st['photon']}\n  | Pixel => {st['pixel']}\n  | Signal => {st['signal']}\n"
             f"  | Image => {st['image']}\n  | Phase => {st['phase']}\n  end.\n\n"
+            "Definition src_empty_of (k : ckind) : empty_kind :=\n  match k with\n"
+            + "".join(f"  | {CLASSES[c][1]} => {info['empties'][c]}\n" for c in CLASSES) + "  end.\n\n"
+            "Definition src_upd_none (k : ckind) : upd_none_kind :=\n  match k with\n  | Photon => UpdNone   (* Photon has no update() *)\n"
+            + "".join(f"  | {CLASSES[c][1]} => {info['updates'][c]}\n" for c in CLASSES if c != "Photon") + "  end.\n\n"
+            "Definition src_d_empty (k : ckind) : dempty_kind :=\n  match k with\n"
+            f"  | Photon => {de['photon']}\n  | Pixel => {de['pixel']}\n  | Signal => {de['signal']}\n"
+            f"  | Image => {de['image']}\n  | Phase => DNever   (* MKID.empty handles the phase array *)\n  end.\n\n"
             "Definition src_tables : tables :=\n"
             "  {| type_list := src_type_list; iadd_ok := src_iadd_ok;\n"
             f"     v_type := {g(info['v'], 'type')}; v_dtype := {g(info['v'], 'dtype')}; v_shape := {g(info['v'], 'shape')};\n"
@@ -364,7 +700,16 @@ def render(info: dict, iadd_rows) -> str:
             f"     q_type := {g(info['q'], 'type')}; q_dtype := {g(info['q'], 'dtype')}; q_ndim := {g(info['q'], 'ndim')};\n"
             f"     q_dims := {g(info['q'], 'dims')}; q_shape := {g(info['q'], 'shape')}; q_coord := {g(info['q'], 'coord')};\n"
             f"     q_clip := {'true' if info['q_clip'] else 'false'};\n"
-            "     det_setter := src_det_setter |}.\n")
+            "     det_setter := src_det_setter;\n"
+            f"     ph_iadd := {info['ph_iadd']}; ph_add := {info['ph_add']};\n"
+            f"     b_iadd := {info['b_iadd']}; b_add := {info['b_add']};\n"
+            f"     base_eq := {info['base_eq']}; ph_eq_geom := {'true' if info['ph_eq_geom'] else 'false'};\n"
+            f"     rd_base := {g(rd['base'], 'none')};\n"
+            f"     rd_ph2_none := {g(rd['ph2'], 'none')}; rd_ph2_xr := {g(rd['ph2'], 'other')};\n"
+            f"     rd_ph3_none := {g(rd['ph3'], 'none')}; rd_ph3_np := {g(rd['ph3'], 'other')};\n"
+            f"     aa_base := {g(rd['aa_base'], 'notnp')}; aa_ph_none := {g(rd['aa_ph'], 'none')};\n"
+            "     empty_of := src_empty_of; upd_none := src_upd_none; d_empty := src_d_empty;\n"
+            f"     mkid_phase_zero := {'true' if info['mkid_phase_zero'] else 'false'} |}}.\n")
 
 
 def _npver() -> str:
@@ -385,8 +730,17 @@ _FALLBACK_INFO = {
     "p": {"type": "TypeError", "dtype": "ValueError", "ndim": "ValueError", "shape": "ValueError"}, "p_clip": True,
     "q": {"type": "TypeError", "dtype": "ValueError", "ndim": "ValueError", "dims": "ValueError",
           "shape": "ValueError", "coord": "ValueError"}, "q_clip": True,
-    "setters": {"photon": "SetterRaw", "pixel": "SetterValidating", "signal": "SetterValidating",
+    "setters": {"photon": "SetterDispatch", "pixel": "SetterValidating", "signal": "SetterValidating",
                 "image": "SetterValidating", "phase": "SetterNone"},
+    "ph_iadd": "IAddSetters", "ph_add": "IAddSetters", "b_iadd": "BIOnCopy", "b_add": "BIOnCopy",
+    "base_eq": "EqBothNone", "ph_eq_geom": True,
+    "reads": {"base": {"none": "ValueError"}, "ph2": {"none": "ValueError", "other": "TypeError"},
+              "ph3": {"none": "ValueError", "other": "TypeError"}, "aa_base": {"notnp": "TypeError"},
+              "aa_ph": {"none": "ValueError"}},
+    "empties": {"Photon": "EmptyNone", "Pixel": "EmptyZeros", "Signal": "EmptyNone", "Image": "EmptyNone", "Phase": "EmptyNone"},
+    "updates": {"Pixel": "UpdNone", "Signal": "UpdCallsEmpty", "Image": "UpdCallsEmpty", "Phase": "UpdCallsEmpty"},
+    "d_empty": {"photon": "DAlways", "pixel": "DIfReset", "signal": "DAlways", "image": "DAlways"},
+    "mkid_phase_zero": True,
 }
 
 
